@@ -47,6 +47,7 @@ def run(tier):
         R.broke('only %d distinct dispatch shapes covered (floor 20)' % len(shapes))
     wrappers(db, R)
     stateful_controls(R)
+    must_if_failure(db, R)
     R.assumptions = ['rule boundary = opaque oracle (true/false/exception); hooks are opaque events that may throw',
                      'exceptions thrown by a closing hook itself (success/failure/start/unwind) are outside the statement']
     return R.finish(
@@ -123,6 +124,41 @@ def stateful_controls(R):
             if moves != want: R.violation('K-state', 'contrib/trace.hpp::tracer::' + name, 'the indentation stack is moved %s, expected %s' % (moves, want), {'function': fn['disp'][:160]}, key=('K', 'trace', name))
     R.cov['stateful_control_hooks'] = dict(n)
     if n['coverage'] < 30 or n['trace'] < 30: R.broke('stateful control hooks analysed: %s (floor 30 each)' % dict(n))
+
+
+# which rules the Errors classes of universe/u_dispatch.cc ask a raise for (mirrors that file): an explicit raise_on_failure< Rule > wins,
+# otherwise a local failure is turned into a global one iff a message is provided (doc/Errors-and-Exceptions.md)
+MUST_IF_SPEC = {
+    'vu::Errors': lambda r: r == 'vu::P<1>',                       # message for P1 only, no raise_on_failure member
+    'vu::Errors2': lambda r: r == 'vu::P1m',                       # no messages, raise_on_failure for P1m only
+    'vu::Errors3': lambda r: False,                                # messages for all rules, raise_on_failure = false
+    'vu::Errors4': lambda r: r != 'vu::P<1>',                      # message for P1 only, raise_on_failure for every rule but P1
+}
+
+
+def must_if_failure(db, R):
+    """M-failure: must_if< Errors, ... >::control< Rule >::failure raises exactly for the rules the Errors class asks a raise for; everywhere else a
+    local failure stays a local failure (the failure hook of the base control runs): "raise only from a must-context or raise rule" """
+    from ..exc import walk
+    n = 0; seen = set()
+    for fn in db.order:
+        cls = fn.get('cls') or {}
+        if fn['n'] != 'failure' or not (cls.get('s') or '').startswith('tao::pegtl::must_if<') or '::control<' not in cls['s']: continue
+        m = __import__('re').match(r'tao::pegtl::must_if<([^,>]+).*>::control<(.*)>$', cls['s'])
+        if not m or m.group(1) not in MUST_IF_SPEC:
+            R.broke('unknown Errors class in %s' % cls['s']); continue
+        want = MUST_IF_SPEC[m.group(1)](m.group(2))
+        calls = [c.get('cn') for c in walk(fn.get('body'), lambda x: x.get('k') == 'call', [])]
+        got = 'raise' in calls
+        n += 1; seen.add((m.group(1), m.group(2)))
+        ok = got == want and (want or 'failure' in calls)
+        R.ob(ok=ok, key=('must_if', cls['s']))
+        if not ok:
+            R.violation('M-failure', 'must_if.hpp::must_if::control::failure', '%s for rule %s: a local failure %s, but the Errors class %s' % (
+                m.group(1).replace('vu::', ''), m.group(2).replace('vu::', ''), 'is turned into a global failure (raise)' if got else 'is passed to the base control' + ('' if 'failure' in calls else ' (not even that)'),
+                'asks for a raise' if want else 'does not ask for a raise (no message / raise_on_failure = false)'), {'function': fn['disp'][:160]}, key=('M', cls['s']))
+    R.cov['must_if_failure_hooks'] = n
+    if len(seen) < 8: R.broke('only %d must_if failure hooks analysed (floor 8)' % len(seen))
 
 
 def wrappers(db, R):
